@@ -194,8 +194,14 @@ func handleExceptionSignal(vm *r.VM, blockModule *r.Module, catchBlock []*syntax
 			exception = value.NewException(e.Error())
 		case *value.Exception:
 			exception = e
-		default:
+		case *zerr.SyntaxError, *zerr.SemanticError, *zerr.IOError, *zerr.Signal, *SyntaxErrorWrapper, *RuntimeErrorWrapper:
 			return nil, realErr
+		default:
+			// a plain (native) error, e.g. a numeric % directive that meets a non-number.
+			// Function.Exec turns those into exceptions when they leave a method, so the
+			// caller's handler could take them: then the handler of the body they arise in
+			// has to come first
+			exception = value.NewException(realErr.Error())
 		}
 	}
 
